@@ -3,6 +3,7 @@ package hostile
 import (
 	"bufio"
 	"bytes"
+	"crypto/tls"
 	"encoding/base64"
 	"encoding/json"
 	"fmt"
@@ -52,6 +53,9 @@ type HostilePlan struct {
 
 	BindUDP bool      `json:"bind_udp,omitempty"` // bind a UDP port pair ({{HP}}, {{HP1}}) the peer can send from
 	UDP     []UDPSend `json:"udp,omitempty"`      // datagrams sent after the chunks, from the bound ports to the server's UDP ports
+
+	StallAfter int  `json:"stall_after,omitempty"` // > 0: the peer stops reading for good once it has sent this many chunks
+	SmallRcv   bool `json:"small_rcv,omitempty"`   // the peer's socket has a tiny receive buffer
 
 	KM    *MikeySpec `json:"km,omitempty"`     // {{KM}} in a chunk = the KeyMgmt header value built from this when the chunk is sent …
 	KMURL string     `json:"km_url,omitempty"` // … for this URL
@@ -204,6 +208,11 @@ func (g *goodClient) request(method base.Method, u string, h base.Header, wantSe
 // startGood performs DESCRIBE / SETUP×2 / PLAY and starts the reading and keep-alive routines.
 // reusePorts (UDP only): bind these client ports instead of fresh ones.
 func startGood(ts *testServer, udp bool, reusePorts int) (*goodClient, error) {
+	return startGoodKA(ts, udp, reusePorts, 200*time.Millisecond)
+}
+
+// startGoodKA: the same with a given keep-alive period.
+func startGoodKA(ts *testServer, udp bool, reusePorts int, keepAlive time.Duration) (*goodClient, error) {
 	g := &goodClient{ts: ts, udp: udp, stop: make(chan struct{})}
 	nc, err := ts.dial()
 	if err != nil {
@@ -328,7 +337,7 @@ func startGood(ts *testServer, udp bool, reusePorts int) (*goodClient, error) {
 	g.wg.Add(1)
 	go func() {
 		defer g.wg.Done()
-		tk := time.NewTicker(200 * time.Millisecond)
+		tk := time.NewTicker(keepAlive)
 		defer tk.Stop()
 		for {
 			select {
@@ -382,11 +391,46 @@ type peerOutcome struct {
 
 func runHostile(ts *testServer, plan *HostilePlan, goodPorts [2]int, limit time.Duration) peerOutcome {
 	out := peerOutcome{label: plan.Label}
+	var locals []string // local addresses of the peer's sockets = remote addresses of its server-side connections
 	dialOne := func() (net.Conn, error) {
-		if plan.Raw || !ts.cfg.TLS {
-			return net.DialTimeout("tcp", ts.addr, 2*time.Second)
+		c, err := net.DialTimeout("tcp", ts.addr, 2*time.Second)
+		if err != nil {
+			return nil, err
 		}
-		return ts.dial()
+		locals = append(locals, c.LocalAddr().String())
+		if plan.SmallRcv {
+			c.(*net.TCPConn).SetReadBuffer(2048)
+		}
+		if plan.Raw || !ts.cfg.TLS {
+			return c, nil
+		}
+		tc := tls.Client(c, &tls.Config{InsecureSkipVerify: true})
+		c.SetDeadline(time.Now().Add(3 * time.Second))
+		if err := tc.Handshake(); err != nil {
+			c.Close()
+			return nil, err
+		}
+		c.SetDeadline(time.Time{})
+		return tc, nil
+	}
+	// the server ended every connection of this peer (seen through OnConnClose, not through the socket:
+	// a peer that does not read cannot see it)
+	serverClosedAll := func() bool {
+		ts.mu.Lock()
+		defer ts.mu.Unlock()
+		seen := false
+		for i, sc := range ts.conns {
+			ra := sc.NetConn().RemoteAddr().String()
+			for _, l := range locals {
+				if ra == l {
+					seen = true
+					if !ts.connClosed[i] {
+						return false
+					}
+				}
+			}
+		}
+		return seen
 	}
 	nc, err := dialOne()
 	if err != nil {
@@ -457,7 +501,7 @@ func runHostile(ts *testServer, plan *HostilePlan, goodPorts [2]int, limit time.
 	// background reader: "fast", "slow" or none
 	var mu sync.Mutex
 	sid := "00000000000000000000000000000000"
-	var closed atomic.Bool
+	var closed, quit atomic.Bool
 	var responses atomic.Int64
 	var mode atomic.Int32 // 0 fast, 1 slow, 2 paused
 	readerDone := make(chan struct{})
@@ -467,8 +511,11 @@ func runHostile(ts *testServer, plan *HostilePlan, goodPorts [2]int, limit time.
 			buf := make([]byte, 64*1024)
 			var inbuf []byte
 			for {
-				for mode.Load() == 2 {
+				for mode.Load() == 2 && !quit.Load() {
 					time.Sleep(2 * time.Millisecond)
+				}
+				if quit.Load() {
+					return
 				}
 				if mode.Load() == 1 {
 					time.Sleep(3 * time.Millisecond)
@@ -510,7 +557,10 @@ func runHostile(ts *testServer, plan *HostilePlan, goodPorts [2]int, limit time.
 		}
 		return b
 	}
-	for _, ch := range plan.Chunks {
+	for k, ch := range plan.Chunks {
+		if plan.StallAfter > 0 && k == plan.StallAfter {
+			mode.Store(2)
+		}
 		if err := write(subst(ch)); err != nil {
 			break
 		}
@@ -562,35 +612,35 @@ func runHostile(ts *testServer, plan *HostilePlan, goodPorts [2]int, limit time.
 				sent++
 			}
 		}
-		mode.Store(0)
+		if plan.StallAfter == 0 {
+			mode.Store(0)
+		}
 		// the server is not idle while it still works on what was sent: wait for the answers
 		// (or the end of the connection) before the silence is timed
-		for t1 := time.Now(); plan.Drain && !closed.Load() && responses.Load()-before < int64(sent) && time.Since(t1) < 12*time.Second; {
+		for t1 := time.Now(); plan.Drain && plan.StallAfter == 0 && !closed.Load() && responses.Load()-before < int64(sent) && time.Since(t1) < 12*time.Second; {
 			time.Sleep(5 * time.Millisecond)
 		}
 	}
 	if !plan.Silent {
 		out.closedBy = "self"
+		quit.Store(true)
 		nc.Close()
 		<-readerDone
 		return out
 	}
 	t0 := time.Now()
-	if plan.Drain {
-		for !closed.Load() && time.Since(t0) < limit {
-			time.Sleep(10 * time.Millisecond)
-		}
-		if closed.Load() {
-			out.closedBy = "server"
-		} else {
-			out.closedBy = "timeout"
-		}
+	// the peer keeps its sockets open and waits for the server to end the connection: seen on the
+	// socket when the peer reads, through OnConnClose in any case (a peer that does not read)
+	for !closed.Load() && !serverClosedAll() && time.Since(t0) < limit {
+		time.Sleep(10 * time.Millisecond)
+	}
+	if closed.Load() || serverClosedAll() {
+		out.closedBy = "server"
 	} else {
-		// a peer that never reads: the end of the connection is seen through the callbacks
-		out.closedBy = "unread"
-		time.Sleep(limit)
+		out.closedBy = "timeout"
 	}
 	out.waited = time.Since(t0)
+	quit.Store(true)
 	nc.Close()
 	<-readerDone
 	return out
@@ -624,7 +674,12 @@ func waitLibGoroutines(want int, d time.Duration) (int, string) {
 
 // ---- running one scenario --------------------------------------------------------------------
 
+var tainted atomic.Bool
+
 func runScenario(sc *Scenario, accountGoroutines bool) (res ScenarioResult) {
+	if tainted.Load() {
+		accountGoroutines = false
+	}
 	res.Name = sc.Name
 	res.Stats = map[string]int{}
 	fail := func(clause, key, detail string) {
@@ -637,7 +692,7 @@ func runScenario(sc *Scenario, accountGoroutines bool) (res ScenarioResult) {
 	}
 	const idle = 2 * time.Second
 	const read = 500 * time.Millisecond
-	ts, err := startServer(sc.Cfg, idle, read, 1)
+	ts, err := startServerW(sc.Cfg, idle, read, 500*time.Millisecond, 1)
 	if err != nil {
 		res.Stats["server-start-failed"] = 1
 		return
@@ -677,6 +732,19 @@ func runScenario(sc *Scenario, accountGoroutines bool) (res ScenarioResult) {
 		fail("the server keeps serving other connections correctly", "good-client-no-packets", "the well-behaved client received nothing before any hostile peer connected")
 		return
 	}
+	// a second well-behaved player over TCP whose keep-alives are rarer than WriteTimeout (and well within
+	// IdleTimeout): the deadline of its interleaved frames must be renewed by the writer itself
+	lazy, lerr := startGoodKA(ts, false, 0, 1200*time.Millisecond)
+	if lerr != nil {
+		fail("the server keeps serving other connections correctly", "good-client-cannot-start", "lazy player: "+lerr.Error())
+		return
+	}
+	lazyDown := false
+	defer func() {
+		if !lazyDown {
+			lazy.teardown()
+		}
+	}()
 	lGood := ts.ledger()
 	ts.mu.Lock()
 	connsBefore, sessBefore := len(ts.conns), len(ts.sessions)
@@ -782,7 +850,7 @@ func runScenario(sc *Scenario, accountGoroutines bool) (res ScenarioResult) {
 	ts.mu.Lock()
 	goodDrops := 0
 	if sessBefore > 0 {
-		goodDrops = ts.writeErrs[ts.sessions[sessBefore-1]]
+		goodDrops = ts.writeErrs[ts.sessions[0]]
 	}
 	ts.mu.Unlock()
 	res.Stats["good-queue-drops"] = goodDrops
@@ -792,8 +860,18 @@ func runScenario(sc *Scenario, accountGoroutines bool) (res ScenarioResult) {
 	if good.kaBad.Load() != 0 {
 		fail("the server keeps serving other connections correctly", "good-client-keepalive", fmt.Sprintf("%d keep-alives of the well-behaved client were not answered 200", good.kaBad.Load()))
 	}
+	if e := lazy.readErr.Load(); e != nil {
+		fail("the server keeps serving other connections correctly", "good-client-disconnected", "control connection of the well-behaved player with rare keep-alives ended: "+e.(string))
+	}
+	if lazy.kaBad.Load() != 0 {
+		fail("the server keeps serving other connections correctly", "good-client-keepalive", fmt.Sprintf("%d keep-alives of the player with rare keep-alives were not answered 200", lazy.kaBad.Load()))
+	}
+	nl0 := lazy.pkts.Load()
 	n0 := good.pkts.Load()
 	time.Sleep(150 * time.Millisecond)
+	if lazy.pkts.Load() == nl0 && lazy.readErr.Load() == nil {
+		fail("the server keeps serving other connections correctly", "good-client-starved", "no packet reached the well-behaved player with rare keep-alives after the hostile peers ended")
+	}
 	if good.pkts.Load() == n0 && good.readErr.Load() == nil {
 		fail("the server keeps serving other connections correctly", "good-client-starved", "no packet reached the well-behaved client after the hostile peers ended")
 	}
@@ -837,6 +915,8 @@ func runScenario(sc *Scenario, accountGoroutines bool) (res ScenarioResult) {
 		}
 		fresh.teardown()
 	}
+	lazy.teardown()
+	lazyDown = true
 	good.teardown()
 	goodDown = true
 	okAll := ts.waitFor(limit, func() bool {
@@ -879,6 +959,7 @@ func runScenario(sc *Scenario, accountGoroutines bool) (res ScenarioResult) {
 	case <-closed:
 	case <-time.After(8 * time.Second):
 		fail("the server does not deadlock", "server-close-hangs", "Server.Close did not return within 8 s")
+		tainted.Store(true) // its goroutines stay: later scenarios of this process cannot count theirs
 		return
 	}
 	serverClosed = true
